@@ -171,7 +171,15 @@ fn run_job(job: &Job, server: std::net::SocketAddr, resp_budget: Duration, quiet
         if let Some(h) = &hb {
             extra.push(("proxy-authorization", h.as_slice()));
         }
-        match c.request(&request_headers(method, target, &extra), method != "CONNECT") {
+        // Tunnel.tla: the answer does not depend on whether the client has already ended its side of the request stream.
+        // Every other CONNECT (none that a relay is planned on) carries FIN on its HEADERS frame - a health check has
+        // nothing more to say, a CONNECT may half-close while the connection is being made.
+        let h = req.to_string().bytes().fold(0u32, |a, b| a.wrapping_mul(31).wrapping_add(b as u32));
+        // (not a multiplexer request: a multiplexer whose client side has ended has ended, and the endpoint ends an
+        //  HTTP/3 stream it gives up with RESET_STREAM, which may overtake the 200 - Tunnel.tla's tolerance ClientEndedMux)
+        let kind = req["kind"].as_str().unwrap_or("");
+        let fin = method != "CONNECT" || (job.relay.is_none() && h % 2 == 1 && kind != "udp" && kind != "icmp");
+        match c.request(&request_headers(method, target, &extra), fin) {
             Ok(sid) => sids.push(Some(sid)),
             Err(e) => {
                 done.obs[i].error = Some(e);
